@@ -265,7 +265,7 @@ VERUS = {
                      desc='rayon ParDrainProducer on extracted text (src/external_trait_impls/rayon/raw.rs) together with the RawIterRange functions it uses: split (the two halves partition what the producer owned), fold_with against an ARBITRARY consumer that may report full at any time (a prefix of the ascending enumeration is handed to the consumer, the rest is dropped by the Drop impl that Rust runs at the early return -- written out by rule R35 -- so every element is consumed or dropped exactly once; when the range is exhausted the producer is forgotten and nothing is left), Drop (exactly the elements not yet handed out, each once)',
                      paired={}),
     'retain': dict(props=['C10', 'C06'], tier='quick',
-                   desc='HashMap::retain and HashTable::retain on extracted text against the contracts of the raw iterator (unit iter) and of RawTable::erase (units glue / ctrl), for any predicate closure and every table size: the predicate is asked about every element exactly once, in ascending bucket order; an element stays exactly when the predicate said so; kept elements and non-FULL buckets are untouched; every erase has the item count and growth headroom it needs; terminates',
+                   desc='HashMap::retain, HashTable::retain and RawExtractIf::next (the engine of every extract_if) on extracted text against the contracts of the raw iterator (unit iter) and of RawTable::erase (units glue / ctrl), for any predicate closure and every table size: the predicate is asked about every element exactly once, in ascending bucket order; an element stays exactly when the predicate said so; kept elements and non-FULL buckets are untouched; every erase has the item count and growth headroom it needs; terminates. RawExtractIf::next hands out and removes exactly the first element after its cursor that the predicate accepts, asks the predicate about nothing else, and keeps the invariant the next call needs',
                    paired={}),
     'assoc': dict(props=['C01', 'C06'], tier='quick',
                   desc='lemma-only unit over the contracts of units ctrl / rehash / resize: what rehash_in_place and resize_inner establish (every FULL bucket placed) is the reachability invariant F2 that insert and erase are proved to preserve; and lookup BY KEY: for a lawful Eq (the closure accepts exactly the buckets holding an element with key k) and a lawful Hash (such elements were stored under the probed hash), find_inner answers Some exactly when an element with key k is stored, and the bucket it returns holds one',
